@@ -763,7 +763,10 @@ class DHEat:
         r = socket.getaddrinfo(host, 0, family, socket.SOCK_STREAM)
         for address_family, socktype, _, _, addr in r:
             if socktype == socket.SOCK_STREAM:
-                return int(address_family), str(addr[0])
+                ip_address = str(addr[0])
+                if len(addr) == 4 and addr[3] != 0:  # A link-local IPv6 address is only reachable together with its scope (interface) ID.
+                    ip_address = '%s%%%u' % (ip_address, addr[3])
+                return int(address_family), ip_address
 
         return int(socket.AF_UNSPEC), ''
 
